@@ -79,11 +79,15 @@ def seqop(p):
         ops = fac(arg)
         pipe_op = rs.state.with_memory_store(list(ops)) if mode == 'mux' else rx.pipe(*ops)
         exp = oracle(items, arg)
-        if p.get('resub') and items:
-            D.abort_first(pipe_op, items[:p['resub']])     # the same operator objects first serve a subscription that fails mid-way
+        if p.get('resub'):
+            # the SAME observable object is subscribed three times: the first subscription fails mid-way at the rx level (what ops.retry re-subscribes after)
+            obs_ = D.flaky_src(items, p['resub']).pipe(pipe_op)
+            obs_.subscribe(on_next=lambda i: None, on_error=lambda e: None)
+        else:
+            obs_ = D.src(items).pipe(pipe_op)
         for sub in ((1, 2) if p.get('resub') else (1,)):
             got = []
-            D.src(items).pipe(pipe_op).subscribe(on_next=got.append, on_error=lambda e: got.append(('ERR', type(e).__name__)))
+            obs_.subscribe(on_next=got.append, on_error=lambda e: got.append(('ERR', type(e).__name__)))
             got = [list(x) if op == 'batch' else x for x in got]
             if got != exp:
                 return fail(op=op, arg=arg, mode=mode, subscription=sub, aborted_first=p.get('resub'), items=items, observed=got, expected=exp)
